@@ -1,5 +1,6 @@
 From Coq Require Import ZArith List Bool Lia.
 From Arsenal Require Import Util.
+From Arsenal Require VamDev VamBlockList Vam VamInv VamInvThm VamAcctThm VamMap VamMapThm VamDefrag VamDefragThm VamDefragAcct VamDefragMap.
 From Arsenal Require Import SyncMem SyncMemProofs.
 Import ListNotations.
 Open Scope Z_scope.
@@ -48,3 +49,38 @@ Theorem C14_code_postMapUnmap : forall s,
                  (SyncMem.extra (fst (SyncMem.post_map_unmap s))).
 Proof. exact GenLeafProofs.gen_postMapUnmap_eq. Qed.
 Print Assumptions C14_code_postMapUnmap.
+
+(* ---------------------------------------------------------------- whole allocator (model Vam*.v)
+   In every reachable state the device's mapping state of every block's memory object and of every dedicated
+   allocation's memory object equals the allocator's SynchronizedMemory state, and memory is mapped exactly
+   while there are map references or the hysteresis extra mapping: an Unmap or Free by one user can therefore
+   not unmap memory another reference still relies on.  Not covered here (vamh exploration with byte patterns
+   through the real pointers): the pointer value base + offset, per-user balance, defragmentation. *)
+Module Allocator.
+Import VamDev VamBlockList Vam VamInv VamInvThm VamAcctThm VamMap VamMapThm.
+
+Theorem C14_allocator_block_mapping_agrees : forall c v lr l b,
+  cfg_acct c -> reachA c v -> get_blist v lr = Some l -> List.In b (bl_blocks l) ->
+  exists d, find_mem (m_mems (v_m v)) (bk_mem b) = Some d /\
+    dm_mapped d = SyncMem.mapped (bk_sm b) /\
+    (SyncMem.mapped (bk_sm b) = true <-> 0 < SyncMem.mapRefs (bk_sm b) \/ SyncMem.extra (bk_sm b) = true) /\
+    0 <= SyncMem.mapRefs (bk_sm b).
+Proof. intros c v lr l b Ha. exact (block_mapping_agrees c Ha v lr l b). Qed.
+Print Assumptions C14_allocator_block_mapping_agrees.
+
+Theorem C14_allocator_dedicated_mapping_agrees : forall c v s a,
+  cfg_acct c -> reachA c v -> slot_is v s a -> a_kind a = 2 ->
+  exists d, find_mem (m_mems (v_m v)) (a_mem a) = Some d /\
+    dm_mapped d = SyncMem.mapped (a_sm a) /\
+    (SyncMem.mapped (a_sm a) = true <-> 0 < SyncMem.mapRefs (a_sm a) \/ SyncMem.extra (a_sm a) = true) /\
+    0 <= SyncMem.mapRefs (a_sm a).
+Proof. intros c v s a Ha. exact (dedicated_mapping_agrees c Ha v s a). Qed.
+Print Assumptions C14_allocator_dedicated_mapping_agrees.
+Theorem C14_allocator_block_mapping_agrees_defrag : forall c v run lr l b,
+  cfg_acct c -> VamDefragAcct.reachDA c v run -> get_blist v lr = Some l -> List.In b (bl_blocks l) ->
+  exists d, find_mem (m_mems (v_m v)) (bk_mem b) = Some d /\
+    dm_mapped d = SyncMem.mapped (bk_sm b) /\
+    (SyncMem.mapped (bk_sm b) = true <-> 0 < SyncMem.mapRefs (bk_sm b) \/ SyncMem.extra (bk_sm b) = true).
+Proof. intros c v run lr l b Ha. exact (VamDefragMap.block_mapping_agrees_defrag c Ha v run lr l b). Qed.
+Print Assumptions C14_allocator_block_mapping_agrees_defrag.
+End Allocator.
